@@ -144,6 +144,54 @@ func VerifC13PrimaryHalt() {
 	rt.Check(db.Pos() == pos0, "halt operations do not move the position")
 }
 
+// VerifC13RetryWhileWaiting: a retried acquire (same id) arrives while the first
+// request is still waiting for the write lock; once the first one is granted, the
+// retry must return that same lock instead of timing out.
+func VerifC13RetryWhileWaiting() {
+	ctx := context.Background()
+	rt.TimeoutPolls = 3
+	wal := rt.Choose("wal.mode", 2) == 1
+	w := verifNewStore(true)
+	w.verifOpenDB(verifImage("img0", 1, wal), 41)
+	db := w.db
+	id := rt.I64("lock.id")
+	rt.Assume(id != 0)
+	// a local connection is in the middle of a write transaction
+	var ok bool
+	if wal {
+		ok, _ = db.TryLocks(ctx, 1, []LockType{LockTypeWrite})
+	} else {
+		ok, _ = db.TryLocks(ctx, 1, []LockType{LockTypeReserved})
+	}
+	rt.Check(ok, "harness: local writer holds its lock")
+	var first *HaltLock
+	rt.OnTick = func() {
+		if first != nil || !rt.Bool("first.request.wins.now") {
+			return
+		}
+		rt.OnTick = nil
+		// the local writer finishes and the first request (same id) is granted
+		db.GuardSet(1).Unlock()
+		var err error
+		first, err = db.AcquireHaltLock(ctx, id)
+		rt.Check(err == nil && first != nil, "first request granted once the writer is done")
+	}
+	retry, err := db.AcquireHaltLock(ctx, id) // the retried request, same id
+	rt.OnTick = nil
+	if first != nil {
+		rt.Check(err == nil && retry != nil, "a retried acquire with the same id succeeds once the first request holds the lock")
+		if retry != nil {
+			rt.Check(retry.ID == id && retry.Pos == first.Pos, "the retry returns the same lock")
+		}
+		db.ReleaseHaltLock(ctx, id)
+		rt.Check(verifAllUnlocked(db), "one release frees everything (no second set of locks was taken)")
+		rt.Reach("c13.retry.while.waiting")
+	} else {
+		rt.Check(err != nil && retry == nil, "still blocked by the local writer: the acquire times out without a lock")
+		rt.Reach("c13.retry.timeout")
+	}
+}
+
 // VerifC13ReplicaCommit: a replica holding the remote halt lock commits a
 // rollback-journal transaction: the primary acknowledges before the commit is
 // published locally; a refused remote commit publishes nothing.
